@@ -11,6 +11,7 @@
 EXTENDS Naturals, Sequences, FiniteSets, TLC
 
 CONSTANTS MaxLen,     \* framing: streams of length 0 .. MaxLen over Bytes
+          ReadSize,   \* framing: one receive returns at most ReadSize bytes (MESSAGE_READ_SIZE)
           Classes,    \* request loop: ids of the line classes explored (subset of DOMAIN Cat)
           MaxPend,    \* request loop: bound on unanswered lines in the design model
           Threads,    \* send layer: threads emitting lines on one connection
@@ -48,7 +49,7 @@ Consumed == SubSeq(stream, 1, pos)
 FInit == /\ stream \in Streams
          /\ pos = 0 /\ buf = <<>> /\ lines = <<>>
 
-Recv(k) == /\ k >= 1 /\ pos + k <= Len(stream)
+Recv(k) == /\ k >= 1 /\ k <= ReadSize /\ pos + k <= Len(stream)
            /\ buf' = buf \o SubSeq(stream, pos + 1, pos + k)
            /\ pos' = pos + k
            /\ UNCHANGED <<stream, lines>>
@@ -58,7 +59,11 @@ Deframe == /\ HasNL(buf)
            /\ buf' = AfterNL(buf)
            /\ UNCHANGED <<stream, pos>>
 
-FNext == Deframe \/ \E k \in 1 .. MaxLen : Recv(k)
+(* the chunking has a time dimension: the peer may pause longer than the socket time-out between any two *)
+(* bytes; a receive that times out delivers nothing and loses nothing                                     *)
+Pause == UNCHANGED fvars
+
+FNext == Deframe \/ Pause \/ \E k \in 1 .. MaxLen : Recv(k)
 
 (* framing is independent of chunking: at every prefix, whatever the segmentation *)
 FramingOK == /\ lines \o SplitNL(buf) = SplitNL(Consumed)
@@ -187,6 +192,7 @@ Cat == [idn |-> Rq("*IDN?", "", {}), describe |-> Rq("describe", "", {}),
         do_broken |-> Rq("do", "broken:cmd", {}),
         read_m |-> Rq("read", "m", {}), change_m |-> Rq("change", "m", {}),
         do_stop |-> Rq("do", "m:stop", {}), change_t |-> Rq("change", "m:t", {}), read_t |-> Rq("read", "m:t", {}),
+        long_valid_3k |-> Rq("change", "m:s", {}),     \* a single line longer than two reads
         surrogate_t |-> Rq("change", "m:t", {})]      \* "\ud800": valid JSON, text that cannot be encoded as UTF-8
 
 (* the replies the statement allows for a request (constructive form of Allowed) *)
